@@ -25,7 +25,9 @@ META = dict(
                "itself is Pipeline.v (C02). KNOWN FINDING D5 runner_blocked_on_slot: listen() does not return although the timeout "
                "elapsed when every slot is held by a task that outlives it. Trusted: Coq kernel + vm_compute, shims and raw-log "
                "grouping, virtual-time loop.",
-    rule="case = receiver scenario with a stop instant and / or N (A, P, wait_tasks_timeout, messages short / long / never-ending); "
+    rule="case = receiver scenario with a stop instant (absolute, or relative to an event of the run such as the begin of a task's "
+         "cancellation clean-up) and / or N (A, P, wait_tasks_timeout, messages short / long / never-ending / slow to react to the "
+         "cancellation their timeout label causes); "
          "non-trivial iff at the shutdown trigger >= 1 callback is running and >= 1 message is taken-but-not-started or arrives within "
          "the next poll period; distinct by canonical scenario",
     trusted_base=["model: coq/theories/RecvLTS.v", "logging shims + raw log -> LTS event grouping: harness/shims.py; harness/vloop.py"],
@@ -34,6 +36,8 @@ META = dict(
 )
 PROF = dict(stop_p=.75, n_p=.25, ends_p=.1, wtt_p=.45, never=.07)
 PROF_BACKLOG = dict(backlog=True, limited_only=True, stop_p=.8, n_p=.3, ends_p=.05, wtt_p=.5, never=.05)
+# shutdown while an accepted task is handling the cancellation its timeout label caused (recv_props.gen_slow_cancel_shutdown)
+PROF_SLOWCANCEL = dict(stop_p=.5, n_p=.15, ends_p=.1, wtt_p=.12, slowcancel=.3)
 RN_TAGS = ("sem.acq", "q.get", "spawn", "waited")
 
 
@@ -84,17 +88,24 @@ def oracle(sc, obs):
         def ack_pending(i):
             return len([t for t in f.acks.get(i, []) if t <= f.ret_t]) > len([t for t in f.ackend.get(i, []) if t <= f.ret_t])
 
-        unfinished = [i for i in taken if i not in ends or ends[i] > f.ret_t or ack_pending(i)]
+        # ... and its task function body, once entered, has REALLY ended (the outermost `finally` of the body was reached):
+        # a body that is still handling a cancellation (timeout label fired, clean-up in progress) is a task still running
+        def body_running(i):
+            return len([t for t in f.bodyin.get(i, []) if t <= f.ret_t]) > len([t for t in f.bodyout.get(i, []) if t <= f.ret_t])
+
+        unfinished = [i for i in taken if i not in ends or ends[i] > f.ret_t or ack_pending(i) or body_running(i)]
         if unfinished and (wtt is None or f.ret_t < f.t0 + wtt):
             out.append(dict(what="listen() returned while an accepted task was still running (or its acknowledgement had not completed) "
                                  "and wait_tasks_timeout had not elapsed",
                             observed=dict(ret_us=f.ret_t, trigger_us=f.t0, unfinished=unfinished, wtt_us=wtt,
-                                          ack_in_flight=[i for i in unfinished if ack_pending(i)]),
+                                          ack_in_flight=[i for i in unfinished if ack_pending(i)],
+                                          body_still_running_after_its_callback_ended=[i for i in unfinished if body_running(i)
+                                                                                        and i in ends and ends[i] <= f.ret_t]),
                             expected="return after every accepted task, or not before trigger + wait_tasks_timeout", sig=dict(kind="no_wait")))
         if not unfinished:
             for i in taken:
                 m = msgs[i]
-                if m["kind"] == "ok" and m.get("ack", "none") != "none" and not m.get("pre_fail") and not m.get("post_fail"):
+                if R.ack_in_quantifier(m):
                     n = sum(1 for t in f.ackend.get(i, []) if t <= f.ret_t)      # COMPLETED acknowledgements
                     if n != 1:
                         out.append(dict(what="drained return but an accepted message is not acknowledged exactly once",
@@ -152,6 +163,25 @@ def nontrivial(sc, o):
     return bool(running) and bool(waiting or arriving)
 
 
+def count_cleanup(rep, sc, o):
+    """evidence: where the shutdown trigger / the return fell relative to a body that handles its cancellation slowly"""
+    f = R.Facts(sc, o)
+    cl = {}
+    for e in f.raw:
+        if e[1] == "body.cleanup":
+            cl.setdefault(e[2], e[0])
+    if not cl:
+        return
+    rep.count("scenario:with-a-body-handling-its-cancellation-slowly")
+    spans = [(t, f.bodyout[i][0] if f.bodyout.get(i) else None) for i, t in cl.items()]
+    if f.t0 is not None and any(a <= f.t0 and (b is None or f.t0 < b) for a, b in spans):
+        rep.count("shutdown-trigger:during-a-slow-cancellation-clean-up")
+    elif f.t0 is not None and any(f.t0 < a for a, b in spans):
+        rep.count("shutdown-trigger:before-a-slow-cancellation-clean-up-began")
+    if f.returned and any(b is not None and b + R.POLL + R.EPS >= f.ret_t >= b and (f.t0 is not None and f.t0 <= b) for a, b in spans):
+        rep.count("return:within-a-poll-period-of-the-end-of-a-slow-cancellation-clean-up")
+
+
 def explore(ctx, rep, scs, label):
     obss = C.run_driver(ctx, "recv_driver", scs)
     nfail = 0
@@ -168,6 +198,8 @@ def explore(ctx, rep, scs, label):
         R.count_inputs(rep, sc)
         rep.count("trigger:" + ("stop" if sc["stop_us"] is not None else "-") + ("+N" if sc["N"] else "") + ("+end" if sc["ends"] else ""))
         rep.count("wtt=%s" % ("set" if sc.get("wtt_us") is not None else None))
+        if "_crash" not in o:
+            count_cleanup(rep, sc, o)
     bad, fails = R.acceptance(ctx, rep, label, scs, obss, "C05_check")
     return bad or fails or nfail
 
@@ -184,6 +216,8 @@ def run(ctx):
     rep.extra["corpus_d5_runner_blocked_on_slot"] = "reproduces (known finding)" if d5 else "does not reproduce on this tree"
     r = ctx.sub_rng("gen")
     scs = [R.gen_scenario(r, PROF if i % 3 else PROF_BACKLOG) for i in range(ctx.n(450, 30000))]
+    r3 = ctx.sub_rng("gen-slow-cancel")      # own stream: the scenarios above are what they were
+    scs += [R.gen_slow_cancel_shutdown(r3, PROF_SLOWCANCEL) for _ in range(ctx.n(70, 4000))]
     broken = explore(ctx, rep, scs, "main")
     if not ctx.quick:
         broken = explore(ctx, rep, R.grid_scenarios(), "grid") or broken
